@@ -85,6 +85,11 @@ func (rr *SIG) Verify(k *KEY, buf []byte) error {
 	if rr.SignerName == "" || rr.Algorithm == 0 {
 		return ErrKey
 	}
+	// Like RRSIG.Verify: a KEY published under another algorithm number is
+	// not the key this signature names, whatever key material it carries.
+	if rr.Algorithm != k.Algorithm {
+		return ErrKey
+	}
 
 	h, cryptohash, err := hashFromAlgorithm(rr.Algorithm)
 	if err != nil {
